@@ -120,7 +120,7 @@ def cases(tier, seed):
       out.append(case('axioms_g%d_k%d_d%d' % (gi, k, d), axioms(rep, k, d), FUNCS,
                       'components_ arbitrary real %dx%d, three arbitrary real points, group %s (run on %s)'
                       % (k, d, g, rep), tiers=tiers, cost=k * d, proof_timeout_ms=120000,
-                      relative_tol=True, tol=1e-9))
+                      relative_tol=True, tol=1e-9, max_paths=3000, hard_timeout_s=(420 if tier == 'quick' else 3000)))
     out.append(case('int_inputs_g%d' % gi, int_inputs(rep), FUNCS,
                     'fixed random components_ 2x3, 40 random integer-dtype point triples (concrete differential run, not solver-decided)',
                     concrete_only=True, validate=1))
